@@ -146,7 +146,9 @@ func init() {
 			// entity addition and removal, feature creation
 			var extra *LEnt
 			api1("entities", func() {
-				switch w.T.Choose(4, "ent-op") {
+				// (adding and removing an entity announce it under the device lock order that the
+				// registry clean-ups of a leaving peer take the other way round: seed C17-h)
+				switch []int{0, 0, 1, 1, 2, 3}[w.T.Choose(6, "ent-op")] {
 				case 0:
 					if extra == nil {
 						extra = c07GenLocalEntity(w, L, []uint{9})
